@@ -388,6 +388,7 @@ class Engine:
             m, rv = s.merge(p, outs)
             p.pc = m.pc; p.mem = m.mem; p.sp = m.sp; p.last = m.last; p.errno_addr = m.errno_addr; p.nsym = m.nsym
             if hasattr(m, 'tls_dtors'): p.tls_dtors = m.tls_dtors
+            if hasattr(m, 'alloc_cnt'): p.alloc_cnt = m.alloc_cnt
         s.__dict__.setdefault('tls_map', {}).pop(s.tid, None)
 
     def new_event(s, p, kind, addr, size, val, order, text=''):
@@ -602,6 +603,9 @@ class Engine:
             for k, v in getattr(p, 'alloc_cnt', {}).items():
                 if v > cnt.get(k, 0): cnt[k] = v
         if cnt: m.alloc_cnt = cnt
+        # thread-exit destructors: paths differ only in whether a thread_local was first used on them; keep the longest list
+        best = max((getattr(p, 'tls_dtors', ()) for p in group), key=len)
+        if len(best): m.tls_dtors = list(best)
 
     def merge_mem(s, m, group, conds):
         anc0 = group[0].mem.ancestors(); common = None
@@ -1438,6 +1442,10 @@ class Engine:
             keep_frames = p.frames
             p.pc = m.pc; p.mem = m.mem; p.sp = m.sp; p.last = m.last; p.errno_addr = m.errno_addr; p.nsym = m.nsym; p.nmem = m.nmem
             if hasattr(m, 'nnd'): p.nnd = m.nnd
+            # per-path bookkeeping the callee extended: allocation-site counters (else the next call of the same allocating
+            # function would be handed the SAME address again) and thread-exit destructors registered inside the callee
+            if hasattr(m, 'alloc_cnt'): p.alloc_cnt = m.alloc_cnt
+            if hasattr(m, 'tls_dtors'): p.tls_dtors = m.tls_dtors
             if ins.res is not None: f.regs[ins.res] = rv
             return
         r = s.stub(p, f, ins, name, args)
